@@ -6,11 +6,18 @@
 import SympdeModel.Model.Sexp
 import SympdeModel.Model.Exterior
 import SympdeModel.Model.PDeriv
+import SympdeModel.Model.Lower
+import SympdeModel.Model.Calc
+import SympdeModel.Model.Norm
 import SympdeModel.Model.Pattern
 import SympdeModel.Model.BC
+import SympdeModel.Model.Atoms
+import SympdeModel.Model.Apply
+import SympdeModel.Model.Linear
 import SympdeModel.Model.Topology
 import SympdeModel.Model.Union
 import SympdeModel.Model.Export
+import SympdeModel.Model.Memo
 open Sympde
 
 def dispatch (line : String) : String :=
@@ -21,11 +28,18 @@ def dispatch (line : String) : String :=
       match m with
       | "C19" => Ext.handle args
       | "C05" => PD.handle args
+      | "C01" => Lower.handle args
+      | "C02" => Calc.handle args
+      | "C11" => Norm.handle args
       | "C20" => Pat.handle args
       | "C18" => BC.handle args
+      | "C17" => Atoms.handle args
+      | "C10" => Apply.handle args
+      | "C08" => Linear.handle args
       | "C13" => Topo.handle args
       | "C14" => USet.handle args
       | "C15" => Export.handle args
+      | "C12" => Memo.handle args
       | _ => "bad-model"
   | some _ => "bad-line"
 
